@@ -251,16 +251,45 @@ pub fn gen_value(r: &mut Rng, kind: u64) -> V {
             0x7ff8000000000001,
             0xfff8000000000000,
         ])),
-        3 => V::Str(r.pick(&["", "a", "b", "he said \"hi\"", "line\nbreak", "tab\tz", "\u{1F600}", "back\\slash", "ünï", " lead", "null", "1"]).to_string()),
+        3 => {
+            // mostly short strings; sometimes long ones (crossing 512-byte sectors, 4 KiB pages and 8 KiB buffers)
+            if r.chance(1, 8) {
+                let n = *r.pick(&[200usize, 511, 512, 513, 1500, 4096, 9000]);
+                let c = *r.pick(&["x", "\u{e9}", "\"", "\\"]);
+                V::Str(c.repeat(n))
+            } else {
+                V::Str(r.pick(&["", "a", "b", "he said \"hi\"", "line\nbreak", "tab\tz", "\u{1F600}", "back\\slash", "ünï", " lead", "null", "1", "NaN", "[1,2]", "\r\n", "\u{0}z"]).to_string())
+            }
+        }
         4 => V::Bool(r.chance(1, 2)),
         5 => V::Null,
         6 => V::Ts(*r.pick(&[0i64, 5, -1, 1_700_000_000_000, i64::MAX, i64::MIN])),
         7 => {
-            let dim = r.below(5) as usize;
-            V::Vec((0..dim).map(|_| r.pick(&[0.0f32, -0.0, 1.0, -2.5, f32::MAX, f32::MIN_POSITIVE, 0.1]).to_bits()).collect())
+            let dim = *r.pick(&[0usize, 1, 1, 2, 2, 3, 4, 4, 8, 17, 64]);
+            V::Vec(
+                (0..dim)
+                    .map(|_| {
+                        r.pick(&[
+                            0.0f32.to_bits(),
+                            (-0.0f32).to_bits(),
+                            1.0f32.to_bits(),
+                            (-2.5f32).to_bits(),
+                            f32::MAX.to_bits(),
+                            f32::MIN_POSITIVE.to_bits(),
+                            0.1f32.to_bits(),
+                            f32::NAN.to_bits(),
+                            0x7fc0_0001,
+                            f32::INFINITY.to_bits(),
+                            f32::NEG_INFINITY.to_bits(),
+                            1u32, // smallest subnormal
+                        ])
+                        .clone()
+                    })
+                    .collect(),
+            )
         }
         _ => {
-            let dim = r.below(5) as usize;
+            let dim = *r.pick(&[0usize, 1, 2, 3, 4, 8, 17, 64]);
             V::VecI8((0..dim).map(|_| *r.pick(&[0i8, 1, -1, 127, -128])).collect())
         }
     }
@@ -271,11 +300,11 @@ pub fn c12_random(seed: u64) -> Case {
     let mut rc = Rng::new(seed, P_CFG);
     let mut rw = Rng::new(seed, P_WORK);
     let mut rv = Rng::new(seed, P_VAL);
-    let arity = rw.range(1, 3) as usize;
+    let arity = if rw.chance(1, 12) { rw.range(4, 6) as usize } else { rw.range(1, 3) as usize };
     let mode = rw.below(3);
     let col_kinds: Vec<u64> = (0..arity).map(|_| rv.below(9)).collect();
     let alt_kinds: Vec<u64> = (0..arity).map(|_| rv.below(9)).collect();
-    let n_tuples = rw.range(1, 4) as usize;
+    let n_tuples = if rw.chance(1, 10) { *rw.pick(&[31usize, 33, 64, 70, 130]) } else { rw.range(1, 4) as usize };
     let mut tuples: Vec<T> = Vec::new();
     for i in 0..n_tuples {
         let t: T = (0..arity)
@@ -675,7 +704,7 @@ pub fn c32_case(seed: u64) -> HCase {
     let mut ops = Vec::new();
     for _ in 0..n {
         let rel = rw.pick(&["r", "r", "s"]).to_string();
-        match rw.below(20) {
+        match rw.below(24) {
             0..=7 => {
                 let k = rw.range(1, 4) as usize;
                 let tuples: Vec<T> = (0..k).map(|_| t64(rw.range(0, 4) as i64, rw.range(0, 3) as i64)).collect();
@@ -722,7 +751,37 @@ pub fn c32_case(seed: u64) -> HCase {
             16 => ops.push(HOp::SaveAll),
             17 => ops.push(HOp::CompactAll),
             18 => ops.push(HOp::Query { kg: kg.clone(), text: format!("?{rel}(X, Y)") }),
-            _ => ops.push(HOp::Restart),
+            19 => ops.push(HOp::Restart),
+            20 => {
+                // a large batch (size thresholds of bulk paths) with in-batch repeats of stored and of new tuples
+                let k = *rw.pick(&[31usize, 32, 33, 40, 64, 65, 130, 300]);
+                let dom = rw.range(6, 40) as i64;
+                let tuples: Vec<T> = (0..k).map(|_| t64(rw.range(0, dom as u64) as i64, rw.range(0, 3) as i64)).collect();
+                if rw.chance(1, 2) {
+                    ops.push(HOp::EngineInsert { kg: kg.clone(), rel, tuples });
+                } else {
+                    ops.push(HOp::Program { kg: kg.clone(), text: bulk_text(&rel, &tuples), effect: Effect::Insert { rel, tuples } });
+                }
+            }
+            21 => {
+                // engine-level batch with in-batch duplicates
+                let k = rw.range(2, 5) as usize;
+                let tuples: Vec<T> = (0..k).map(|_| t64(rw.range(0, 2) as i64, rw.range(0, 2) as i64)).collect();
+                ops.push(HOp::EngineInsert { kg: kg.clone(), rel, tuples });
+            }
+            22 => {
+                // one delete request naming tuples several times / absent tuples
+                let k = rw.range(2, 5) as usize;
+                let tuples: Vec<T> = (0..k).map(|_| t64(rw.range(0, 2) as i64, rw.range(0, 2) as i64)).collect();
+                ops.push(HOp::EngineDelete { kg: kg.clone(), rel, tuples });
+            }
+            _ => {
+                // bulk delete statement, tuples may repeat
+                let k = rw.range(2, 4) as usize;
+                let tuples: Vec<T> = (0..k).map(|_| t64(rw.range(0, 3) as i64, rw.range(0, 2) as i64)).collect();
+                let text = format!("-{rel}[{}]", tuples.iter().map(tuple_lit).collect::<Vec<_>>().join(", "));
+                ops.push(HOp::Program { kg: kg.clone(), text, effect: Effect::Delete { rel, tuples } });
+            }
         }
     }
     ops.push(HOp::Restart);
@@ -759,7 +818,7 @@ pub fn c33_case(seed: u64) -> HCase {
     let mut slot_made = false;
     for _ in 0..n {
         let rel = rw.pick(&["t", "u"]).to_string();
-        match rw.below(20) {
+        match rw.below(23) {
             0..=4 => {
                 let cols = vec![("a".to_string(), rw.pick(&tys).to_string()), ("b".to_string(), rw.pick(&tys).to_string())];
                 let text = format!("+{rel}({})", cols.iter().map(|(c, t)| format!("{c}: {t}")).collect::<Vec<_>>().join(", "));
@@ -798,7 +857,38 @@ pub fn c33_case(seed: u64) -> HCase {
             }
             16..=17 => ops.push(HOp::Restart),
             18 => ops.push(HOp::SaveAll),
-            _ => ops.push(HOp::Query { kg: kg.clone(), text: format!("?{rel}(X, Y)") }),
+            19 => ops.push(HOp::Query { kg: kg.clone(), text: format!("?{rel}(X, Y)") }),
+            _ => {
+                // one request of several statements: request-local and/or persistent schema declarations,
+                // request-local facts, then one persistent insert judged against the *persistent* schema
+                let mut stmts: Vec<(String, Effect)> = Vec::new();
+                let mut eff_cols = declared.iter().find(|(r, _)| r == &rel).map(|(_, c)| c.clone());
+                let mut sess_cols: Option<Vec<(String, String)>> = None;
+                for _ in 0..rw.range(1, 2) {
+                    let cols = vec![("a".to_string(), rw.pick(&tys).to_string()), ("b".to_string(), rw.pick(&tys).to_string())];
+                    let decl = cols.iter().map(|(c, t)| format!("{c}: {t}")).collect::<Vec<_>>().join(", ");
+                    if rw.chance(2, 3) {
+                        stmts.push((format!("{rel}({decl})"), Effect::SessionSchema { rel: rel.clone(), cols: cols.clone() }));
+                        sess_cols = Some(cols);
+                    } else {
+                        stmts.push((format!("+{rel}({decl})"), Effect::Schema { rel: rel.clone(), cols: cols.clone() }));
+                        declared.retain(|(r, _)| r != &rel);
+                        declared.push((rel.clone(), cols.clone()));
+                        eff_cols = Some(cols);
+                    }
+                }
+                // the batch: conforming to the request-local schema, to the persistent one, or to neither
+                let target = match rw.below(3) {
+                    0 => sess_cols.clone().or(eff_cols.clone()),
+                    1 => eff_cols.clone(),
+                    _ => None,
+                }
+                .unwrap_or_else(|| vec![("a".into(), "int".into()), ("b".into(), "int".into())]);
+                let k = rw.range(1, 2) as usize;
+                let tuples: Vec<T> = (0..k).map(|_| target.iter().map(|(_, ty)| gen_typed_value(&mut rw, ty, true)).collect()).collect();
+                stmts.push((bulk_text(&rel, &tuples), Effect::Insert { rel: rel.clone(), tuples }));
+                ops.push(HOp::Multi { kg: kg.clone(), stmts });
+            }
         }
     }
     ops.push(HOp::Restart);
@@ -969,6 +1059,83 @@ pub fn c18_case(seed: u64, flavour: u64) -> HCase {
     let mut cfg = swarm_cfg(&mut rc, true);
     cfg.num_threads = *rc.pick(&[1usize, 1, 2]);
     HCase { seed, cfg, idle_timeout_secs: 3600, ops, check_reports: false, use_async: false }
+}
+
+/// C19a: histories dedicated to the incremental mirror: tiny tuple domain, every write path
+/// (engine batches with in-batch repeats, delete requests naming a tuple several times or absent
+/// tuples, handler statements, conditional deletes, updates, large batches), incremental
+/// maintenance switched on before or in the middle of the history, a consistent read of both
+/// relations after every write.
+pub fn c19a_case(seed: u64) -> HCase {
+    let mut rc = Rng::new(seed, P_CFG);
+    let mut rw = Rng::new(seed, P_WORK);
+    let kg = "default".to_string();
+    let n = rw.range(3, 11) as usize;
+    let enable_at = rw.below(n as u64 / 2 + 1) as usize;
+    let dom = rw.range(2, 3);
+    let mut ops = Vec::new();
+    let fact = |r: &mut Rng| t64(r.range(1, dom) as i64, r.range(1, 2) as i64);
+    for i in 0..n {
+        if i == enable_at {
+            ops.push(HOp::EnableIncremental { kg: kg.clone() });
+        }
+        let rel = rw.pick(&["f", "f", "g"]).to_string();
+        match rw.below(20) {
+            0..=4 => {
+                let k = rw.range(1, 4);
+                let tuples: Vec<T> = (0..k).map(|_| fact(&mut rw)).collect();
+                ops.push(HOp::EngineInsert { kg: kg.clone(), rel, tuples });
+            }
+            5..=8 => {
+                let k = rw.range(1, 4);
+                let tuples: Vec<T> = (0..k).map(|_| fact(&mut rw)).collect();
+                ops.push(HOp::EngineDelete { kg: kg.clone(), rel, tuples });
+            }
+            9..=10 => {
+                let k = rw.range(1, 3);
+                let tuples: Vec<T> = (0..k).map(|_| fact(&mut rw)).collect();
+                ops.push(HOp::Program { kg: kg.clone(), text: bulk_text(&rel, &tuples), effect: Effect::Insert { rel, tuples } });
+            }
+            11..=12 => {
+                let k = rw.range(1, 3) as usize;
+                let tuples: Vec<T> = (0..k).map(|_| fact(&mut rw)).collect();
+                let text = if k == 1 { format!("-{rel}{}", tuple_lit(&tuples[0])) } else { format!("-{rel}[{}]", tuples.iter().map(tuple_lit).collect::<Vec<_>>().join(", ")) };
+                ops.push(HOp::Program { kg: kg.clone(), text, effect: Effect::Delete { rel, tuples } });
+            }
+            13 => {
+                let (col, cmp, k) = gen_cmp(&mut rw);
+                let var = if col == 0 { "X" } else { "Y" };
+                ops.push(HOp::Program { kg: kg.clone(), text: format!("-{rel}(X, Y) <- {rel}(X, Y), {var} {cmp} {k}"), effect: Effect::CondDelete { rel, col, cmp, k } });
+            }
+            14 => {
+                let (col, cmp, k) = gen_cmp(&mut rw);
+                let var = if col == 0 { "X" } else { "Y" };
+                let add = rw.range(1, 2) as i64;
+                ops.push(HOp::Program {
+                    kg: kg.clone(),
+                    text: format!("-{rel}(X, Y), +{rel}(X, Z) <- {rel}(X, Y), {var} {cmp} {k}, Z = Y + {add}"),
+                    effect: Effect::Update { rel, col, cmp, k, add },
+                });
+            }
+            15 => {
+                let k = *rw.pick(&[33usize, 64, 70]);
+                let tuples: Vec<T> = (0..k).map(|_| t64(rw.range(1, 12) as i64, rw.range(1, 2) as i64)).collect();
+                ops.push(HOp::EngineInsert { kg: kg.clone(), rel, tuples });
+            }
+            16 => ops.push(HOp::SaveAll),
+            17 => ops.push(HOp::CompactAll),
+            18 => {
+                ops.push(HOp::Restart);
+                ops.push(HOp::EnableIncremental { kg: kg.clone() });
+            }
+            _ => ops.push(HOp::EnableIncremental { kg: kg.clone() }),
+        }
+        ops.push(HOp::IncrRead { kg: kg.clone(), rel: "f".into() });
+        ops.push(HOp::IncrRead { kg: kg.clone(), rel: "g".into() });
+    }
+    let mut cfg = swarm_cfg(&mut rc, true);
+    cfg.num_threads = 1;
+    HCase { seed, cfg, idle_timeout_secs: 3600, ops, check_reports: true, use_async: false }
 }
 
 // ------------------------------------------------------------------------------------------ VEC
